@@ -37,6 +37,7 @@ def c03(tier):
     if tier == 'quick':
         qs.append(mk('lr_w2_r1_r1_R3', 'c03_lr.cpp', [W, R1, R2], 3, final='vp_final', cover=3, defines=['NWRITES=2', 'NREADS=1'], timeout=900))
         qs.append(mk('lr_w2_r2_R3_try', 'c03_lr.cpp', [W, R1], 3, final='vp_final', cover=3, defines=['NWRITES=2', 'NREADS=2', 'READ_TRY'], timeout=900))
+        qs.append(mk('lr_w1_r2_R3_tryfor_until', 'c03_lr.cpp', [W, R1], 3, final='vp_final', cover=3, defines=['NWRITES=1', 'NREADS=2', 'READ_TRYFOR'], timeout=900))
         qs.append(mk('lr_w1_w1_r1_R3', 'c03_lr.cpp', [('W1', 'vp_writer'), ('W2', 'vp_writer'), R1], 3, final='vp_final', cover=3,
                      defines=['NWRITES=1', 'NREADS=1'], timeout=900))
         qs.append(mk('lr_w1_w1_r1_R3_o201', 'c03_lr.cpp', [('W1', 'vp_writer'), ('W2', 'vp_writer'), R1], 3, order=(2, 0, 1), final='vp_final', cover=3,
@@ -618,6 +619,7 @@ def c04(tier):
         qs.append(cowq('cow_commit_reader_R2', 'WR', 2, defines=['WMODE=0', 'NSNAP=1']))
         qs.append(cowq('cow_cancel_commit_R2', 'WV', 2, defines=['WMODE=1', 'WMODE_B=0', 'NSNAP=1']))
     else:
+        qs.append(cowq('cow_commit_tryshared_reader_R2', 'WR', 2, defines=['WMODE=0', 'NSNAP=1', 'USE_TRY_SHARED'], timeout=3400))
         qs.append(cowq('cow_commit_reader2_R3', 'WR', 3, defines=['WMODE=0', 'NSNAP=2'], timeout=3400))
         qs.append(cowq('cow_reader_commit_R2', 'WR', 2, order=(1, 0), defines=['WMODE=0', 'NSNAP=1'], timeout=3400))
         qs.append(cowq('cow_cancel_commit_R2', 'WV', 2, defines=['WMODE=1', 'WMODE_B=0', 'NSNAP=1'], timeout=3400))
